@@ -158,7 +158,8 @@ def main():
                 except Violation as e:
                     st = "ps:violation"
                     record(e.bucket, "ps", src, e.detail)
-                state["status_counts"][st.split(":")[0] + ":" + st.split(":")[1]] = state["status_counts"].get(st.split(":")[0] + ":" + st.split(":")[1], 0) + 1
+                key = ":".join(st.split(":")[:2])
+                state["status_counts"][key] = state["status_counts"].get(key, 0) + 1
         except RuntimeError:
             raise
         except (Violation, Discard):
